@@ -1,3 +1,226 @@
-(* C32 — placeholder while the proofs are being written *)
-From Coq Require Import List NArith.
+(* C32 — build-index tag puts are dependency-checked, stable and written back.
+   Statements only; every proof is `exact <lemma from Proof/C32.v>`.
+   The model (Model/C32.v) is the tag server's handlers over the tag store, the write-back
+   executor and the task table of the retry manager (K.Model.Retry); a history is any list of
+   PUTs, duplicate puts, GETs, HEADs, replicates, executions of stored write-back tasks and
+   writes of the backend by others, each carrying the answers the environment gave. *)
+From Coq Require Import List NArith Bool.
+From K.Model Require Retry.
 From K.Model Require Import C32.
+From K.Proof Require C32.
+Import ListNotations.
+Local Open Scope N_scope.
+
+(* ---- clause 1: a tag PUT succeeds only if every blob it depends on is present in the origin
+   cluster (and the dependencies could be resolved at all) — in every history, at every position *)
+Theorem C32_put_requires_deps : forall c ops i p o,
+  nth_error ops i = Some (Put p) -> nth_error (snd (run c init ops)) i = Some o -> o_res o = ROk ->
+  p_res p = true /\ forall a, In a (p_deps p) -> a = AFound.
+Proof. exact Proof.C32.put_requires_deps. Qed.
+Print Assumptions C32_put_requires_deps.
+
+(* ... and a PUT that fails the check leaves no trace at all *)
+Theorem C32_failed_check_no_effect : forall c s p,
+  passed p = false -> step c s (Put p) = (s, mkout RFail None [] [] (snap_of s (p_tag p))).
+Proof. exact Proof.C32.failed_check_no_effect. Qed.
+Print Assumptions C32_failed_check_no_effect.
+
+(* ---- clause 2: after a PUT answered 200 there is one digest d, put for this tag by an operation
+   of the history so far, such that in EVERY continuation the node holds d for the tag and every
+   GET answers d — whatever is put later and whatever the backend does *)
+Theorem C32_stable : forall c ops1 p,
+  let s1 := fst (run c init ops1) in
+  o_res (snd (step c s1 (Put p))) = ROk ->
+  exists d, put_forb (p_tag p) d (ops1 ++ [Put p]) = true /\
+    forall ops2,
+      aget (p_tag p) (disk (fst (run c (fst (step c s1 (Put p))) ops2))) = Some d /\
+      forall i f, nth_error ops2 i = Some (Get (p_tag p) f) ->
+        exists o, nth_error (snd (run c (fst (step c s1 (Put p))) ops2)) i = Some o /\
+                  o_res o = ROk /\ o_dig o = Some d.
+Proof. exact Proof.C32.stable. Qed.
+Print Assumptions C32_stable.
+
+(* tags do not change once stored on a node: no operation replaces a digest on disk; a re-put
+   of another digest therefore leaves the first one (and still answers 200, see C32_reput_keeps_first) *)
+Theorem C32_tags_do_not_change : forall c s o t d,
+  aget t (disk s) = Some d -> aget t (disk (fst (step c s o))) = Some d.
+Proof. exact Proof.C32.tags_do_not_change. Qed.
+Print Assumptions C32_tags_do_not_change.
+
+(* stability does not depend on who stored the tag (PUT, duplicate put, a put that failed after its
+   disk write): once a digest is on the node every continuation keeps it and every GET answers it *)
+Theorem C32_stable_once_stored : forall c s t d,
+  aget t (disk s) = Some d ->
+  forall ops2,
+    aget t (disk (fst (run c s ops2))) = Some d /\
+    forall i f, nth_error ops2 i = Some (Get t f) ->
+      exists o, nth_error (snd (run c s ops2)) i = Some o /\ o_res o = ROk /\ o_dig o = Some d.
+Proof. exact Proof.C32.stable_once_stored. Qed.
+Print Assumptions C32_stable_once_stored.
+
+(* replication: a task created for a stored tag carries the digest the node resolves it to; a PUT
+   tells its neighbour / replicates only after it passed the check and stored the tag *)
+Theorem C32_replicate_uses_resolved : forall c s t f r ok d,
+  aget t (disk s) = Some d -> forall x, In x (o_rep (snd (step c s (Repl t f r ok)))) -> x = d.
+Proof. exact Proof.C32.replicate_uses_resolved. Qed.
+Print Assumptions C32_replicate_uses_resolved.
+
+Theorem C32_put_replicates_after_store : forall c s p x,
+  In x (o_rep (snd (step c s (Put p))) ++ o_nb (snd (step c s (Put p)))) ->
+  x = p_dig p /\ passed p = true /\ aget (p_tag p) (disk (fst (step c s (Put p)))) <> None.
+Proof. exact Proof.C32.put_replicates_after_store. Qed.
+Print Assumptions C32_put_replicates_after_store.
+
+(* ---- clause 3, write-through mode: when the PUT answers 200 the backend already holds the digest
+   the node resolves the tag to, and keeps it.  Hypotheses: a backend is configured for the tag,
+   and nobody else wrote the tag's backend object (both are needed: the _refuted theorems below) *)
+Theorem C32_backend_write_through : forall c ops1 p,
+  c_mode c = WriteThrough -> c_ns c = true -> bkset_free (p_tag p) ops1 = true ->
+  let s1 := fst (run c init ops1) in
+  let s2 := fst (step c s1 (Put p)) in
+  o_res (snd (step c s1 (Put p))) = ROk ->
+  exists d, aget (p_tag p) (disk s2) = Some d /\ aget (p_tag p) (bk s2) = Some (CDig d) /\
+    forall ops2, bkset_free (p_tag p) ops2 = true ->
+      aget (p_tag p) (bk (fst (run c s2 ops2))) = Some (CDig d).
+Proof. exact Proof.C32.backend_write_through. Qed.
+Print Assumptions C32_backend_write_through.
+
+(* ---- clause 3, asynchronous mode.  After the PUT answered 200, in every continuation: the tag's
+   write-back task stays stored until the backend holds the digest the node resolves the tag to;
+   every execution of the task that succeeds leaves that digest in the backend; an execution is
+   always possible and succeeds when the backend answers; once there the digest stays.
+   PARTIAL — missing: that the retry manager does execute a stored task again and again until it
+   succeeds, across failures and restarts (that is property C30 about K.Model.Retry, whose task
+   table this model uses: Proof/Retry.v no_lost_task, progress_possible), and that the backend
+   eventually answers (an assumption about the environment). *)
+Theorem C32_backend_eventually_same_async_partial : forall c ops1 p,
+  c_mode c = Async -> c_ns c = true -> bkset_free (p_tag p) ops1 = true ->
+  let t := p_tag p in
+  let s1 := fst (run c init ops1) in
+  let s2 := fst (step c s1 (Put p)) in
+  o_res (snd (step c s1 (Put p))) = ROk ->
+  exists d, aget t (disk s2) = Some d /\
+    forall ops2, bkset_free t ops2 = true ->
+      let s3 := fst (run c s2 ops2) in
+      (Retry.storedb t (tasks s3) = true \/ aget t (bk s3) = Some (CDig d)) /\
+      (forall a, o_res (snd (step c s3 (Exec t a))) = ROk ->
+                 aget t (bk (fst (step c s3 (Exec t a)))) = Some (CDig d)) /\
+      (Retry.storedb t (tasks s3) = true -> o_res (snd (step c s3 (Exec t (mkea false UOk)))) = ROk) /\
+      (aget t (bk s3) = Some (CDig d) ->
+       forall ops3, bkset_free t ops3 = true -> aget t (bk (fst (run c s3 ops3))) = Some (CDig d)).
+Proof. exact Proof.C32.backend_async_partial. Qed.
+Print Assumptions C32_backend_eventually_same_async_partial.
+
+(* interface to the retry manager's model (K.Model.Retry, property C30): the write-back task table
+   moves only by that model's store operations, and a task leaves the table only when the executor's
+   verdict for it was success (Retry: OpExecRet t true; OpExecFin t) *)
+Theorem C32_task_table_moves : forall c s o,
+  let ts := tasks s in
+  let ts' := tasks (fst (step c s o)) in
+  ts' = ts \/
+  (exists st d, Retry.add_row (op_tag o) st d 0 ts = Some ts') \/
+  (exists t a, o = Exec t a /\ Retry.storedb t ts = true /\
+     ts' = (if snd (exec_once c s t a) then Retry.remove_row t ts else Retry.mark_failed t 0 ts)).
+Proof. exact Proof.C32.task_table_moves. Qed.
+Print Assumptions C32_task_table_moves.
+
+(* ---- the property in executable form (what is evaluated on the implementation's traces) holds of
+   every history of the model *)
+Theorem C32_check_sound : forall c ops, C32_check c ops (snd (run c init ops)) = true.
+Proof. exact Proof.C32.check_sound. Qed.
+Print Assumptions C32_check_sound.
+
+(* ---- what does not hold without the hypotheses of clause 3 *)
+
+(* the backend already holds another digest for the tag (put through another node): the PUT
+   answers 200, the node resolves the tag to 1 for ever, the backend keeps 2 *)
+Theorem C32_preexisting_backend_refuted :
+  exists c ops, c_ns c = true /\
+    let '(s, outs) := run c init ops in
+    map o_res outs = [ROk; ROk; ROk; ROk] /\ aget 0 (disk s) = Some 1 /\ aget 0 (bk s) = Some (CDig 2).
+Proof. exact Proof.C32.preexisting_backend_refuted. Qed.
+Print Assumptions C32_preexisting_backend_refuted.
+
+Theorem C32_preexisting_backend_async_refuted :
+  exists c ops, c_ns c = true /\
+    let '(s, outs) := run c init ops in
+    map o_res outs = [ROk; ROk; ROk; ROk] /\ aget 0 (disk s) = Some 1 /\ aget 0 (bk s) = Some (CDig 2) /\
+    Retry.storedb 0 (tasks s) = false.
+Proof. exact Proof.C32.preexisting_backend_async_refuted. Qed.
+Print Assumptions C32_preexisting_backend_async_refuted.
+
+(* no backend is configured for the tag's namespace: the executor drops the task, the PUT answers 200 *)
+Theorem C32_no_backend_refuted :
+  exists c ops, c_ns c = false /\
+    let '(s, outs) := run c init ops in map o_res outs = [ROk] /\ aget 0 (bk s) = None.
+Proof. exact Proof.C32.no_backend_refuted. Qed.
+Print Assumptions C32_no_backend_refuted.
+
+(* ---- how a re-put and a failed put behave (remarks; they do not contradict the statement) *)
+
+(* re-put of another digest: 200, the neighbour is told the NEW digest, the node keeps the old one *)
+Theorem C32_reput_keeps_first :
+  exists c ops,
+    let outs := snd (run c init ops) in
+    map o_res outs = [ROk; ROk; ROk] /\ map o_nb outs = [[1]; [2]; []] /\ map o_dig outs = [None; None; Some 1].
+Proof. exact Proof.C32.reput_keeps_first. Qed.
+Print Assumptions C32_reput_keeps_first.
+
+(* "a digest that was put for it" cannot be strengthened to "a digest whose PUT succeeded": a PUT
+   that failed after its disk write (backend down, write-through) decides what a later successful
+   PUT of another digest resolves to *)
+Theorem C32_resolved_digest_of_failed_put :
+  exists c ops,
+    let outs := snd (run c init ops) in
+    map o_res outs = [RFail; ROk; ROk] /\ map o_dig outs = [None; None; Some 1].
+Proof. exact Proof.C32.resolved_digest_of_failed_put. Qed.
+Print Assumptions C32_resolved_digest_of_failed_put.
+
+(* before any put on this node GET answers what the backend holds and does not pin it: a later put
+   of another digest changes the answer (stability starts with the first store on the node) *)
+Theorem C32_backend_answer_not_pinned :
+  exists c ops, map o_dig (snd (run c init ops)) = [None; Some 2; None; Some 1].
+Proof. exact Proof.C32.backend_answer_not_pinned. Qed.
+Print Assumptions C32_backend_answer_not_pinned.
+
+(* ---- non-vacuity *)
+
+(* clause 1/2/3 (write-through): a history with failing and succeeding puts of two tags, backend
+   faults and a re-put, after which both clause-3 hypotheses hold for tag 0 and the PUT answers 200 *)
+Example C32_nonvacuous_write_through :
+  let c := mkcfg WriteThrough 3 true in
+  let ops1 := [P 1 2 true [AFound; AMissing] F0 [mkea false UOk] true false true;
+               P 1 2 true [AFound; AFound] F0 [mkea true UErr; mkea false UErrStored; mkea false UOk] true false true;
+               Get 1 true; BkSet 1 (CDig 3); DupPut 1 3 false F0 [mkea false UOk]] in
+  let p := mkput 0 1 true [AFound] F0 [mkea false UErr; mkea false UOk] false true true in
+  bkset_free 0 ops1 = true /\
+  map o_res (snd (run c init ops1)) = [RFail; ROk; ROk; ROk; ROk] /\
+  o_res (snd (step c (fst (run c init ops1)) (Put p))) = ROk /\
+  snap_of (fst (step c (fst (run c init ops1)) (Put p))) 0 = mksnap (Some 1) (Some (CDig 1)) None.
+Proof. vm_compute. repeat split; reflexivity. Qed.
+
+(* clause 3 (asynchronous): the task is stored after the put, survives two failed executions and is
+   removed by the third, which leaves the digest in the backend *)
+Example C32_nonvacuous_async :
+  let c := mkcfg Async 3 true in
+  let ops := [P 0 1 true [AFound] F0 [] true false true; Exec 0 (mkea false UErr); P 0 2 true [] F0 [] true false true;
+              Exec 0 (mkea true UErr); Exec 0 (mkea false UOk); Get 0 true] in
+  bkset_free 0 ops = true /\
+  map o_res (snd (run c init ops)) = [ROk; RFail; ROk; RFail; ROk; ROk] /\
+  map (fun o => sn_task (o_snap o)) (snd (run c init ops)) = [Some 0; Some 1; Some 1; Some 2; None; None] /\
+  snap_of (fst (run c init ops)) 0 = mksnap (Some 1) (Some (CDig 1)) None.
+Proof. vm_compute. repeat split; reflexivity. Qed.
+
+(* the oracle is not trivially true: it rejects a trace in which a successful PUT had a missing
+   dependency, one in which the resolved digest changes, and one in which the backend lacks the
+   digest after a write-through PUT *)
+Example C32_check_rejects :
+  let c := mkcfg WriteThrough 3 true in
+  C32_check c [P 0 1 true [AMissing] F0 [] true false true]
+              [O ROk None [1] [] (Some 1) (Some (CDig 1)) None] = false /\
+  C32_check c [P 0 1 true [AFound] F0 [] true false true; Get 0 false; P 0 2 true [] F0 [] true false true; Get 0 false]
+              [O ROk None [1] [] (Some 1) (Some (CDig 1)) None; O ROk (Some 1) [] [] (Some 1) (Some (CDig 1)) None;
+               O ROk None [2] [] (Some 2) (Some (CDig 1)) None; O ROk (Some 2) [] [] (Some 2) (Some (CDig 1)) None] = false /\
+  C32_check c [P 0 1 true [AFound] F0 [] true false true]
+              [O ROk None [1] [] (Some 1) None None] = false.
+Proof. vm_compute. repeat split; reflexivity. Qed.
